@@ -193,7 +193,7 @@ fn ti_err_kind(e: &MemvidError) -> u128 {
         MemvidError::InvalidTimeIndex { reason } => {
             let s: &str = reason.as_ref();
             if s.contains("magic") { 1 } else if s.contains("shorter") { 2 } else if s.contains("overflow") { 3 }
-            else if s.contains("declared count") { 4 } else if s.contains("not sorted") { 5 } else { 99 }
+            else if s.contains("declared count") { 4 } else if s.contains("not sorted") { 5 } else if s.contains("too large") { 6 } else { 99 }
         }
         MemvidError::Io { .. } => 9,
         _ => 98,
@@ -298,7 +298,8 @@ fn time_index_streams(r: &mut Rng, n: usize, w: &mut dyn std::io::Write) {
         let mut viol = None;
         let output = match &res {
             Err(_) => {
-                viol = Some(if capacity { format!("ti-count-capacity: read_track panics (Vec::with_capacity overflow) instead of returning Err for count {} with matching length {}", u64::from_le_bytes(img[4..12].try_into().unwrap()), len) }
+                // (repaired by b6c8721; the input class is still generated and a panic on it is a plain violation)
+                viol = Some(if capacity { format!("ti-read-panic: read_track panicked instead of returning Err for count {} with matching length {}", u64::from_le_bytes(img[4..12].try_into().unwrap()), len) }
                             else { "ti-read-panic: read_track panicked".to_string() });
                 panic_t()
             }
